@@ -566,6 +566,19 @@ def D_waitnoecho(t0, T, tmode, off):
     return 3
 
 
+def dry_runs():
+    for tmode in range(4):
+        yield 'A_deadline', dict(t0=3, T=4, tmode=tmode, k0=0, k1=0, k2=2, d0=1, d1=1, d2=1, dar=1, pend=False)
+        base = dict(now=1, w0=1, r0=0, st=0, e1=1, e2=2, e3=3, k2=0, k3=1, w1=2, w2=3, size=2, T=2, tmode=tmode, poll=False)
+        yield 'B_pty', dict(base, w0=0)
+        yield 'B_fd', base
+        yield 'B_socket', base
+    yield 'B_popen', dict(t0=0, T=2, tmode=2, n=2, c0=1, c1=1, c2=1, c3=1, size=3)
+    yield 'C_interrupts', dict(t0=0, T=5, k0=0, k1=1, k2=2, d0=2, d1=1, d2=0, use_poll=False, other=False)
+    yield 'C_interrupts', dict(t0=0, T=5, k0=0, k1=2, k2=2, d0=2, d1=1, d2=0, use_poll=True, other=False)
+    yield 'D_waitnoecho', dict(t0=0, T=3, tmode=2, off=2)
+
+
 MANIFEST_ENTRY = {
     'level_text': 'Bounded symbolic verification on a virtual integer clock, all times unbounded integers: '
                   '(A) the overall deadline arithmetic of the real expect_loop against any transport obeying the '
